@@ -76,7 +76,8 @@ LEVEL_TEXT["C10"] = ("Theorems for every n and every admissible draw: each regis
                      "dtype, length and seed-determinism on the real output.")
 LEVEL_TEXT["C11"] = ("Theorems: the enumeration lists every set of ≤ k unknown coalitions exactly once in non-decreasing size; the reported gap equals gap(compute(exactly start ∪ set)) for EVERY state "
                      "of the scratch table; for EVERY chunking of the task list (hence every worker count) the pool returns the sequential map; the real chunking is such a partition; meta-game = "
-                     "same quantity; best-states = first minimiser of the mean per size, non-increasing for monotone gaps. Bound computer and gap are parameters. Tie: real search functions with "
+                     "same quantity; best-states = first minimiser of the mean per size, non-increasing for monotone gaps. Bound computer and gap are parameters; Lemmas/ComposeSearch + Props/Compose discharge the "
+                     "monotonicity / non-negativity hypotheses for the real computers and gaps from C07 (best_curve, best_states_min, search_result). Tie: real search functions with "
                      "1..16 processes and poisoned scratch games.")
 LEVEL_TEXT["C12"] = ("Theorems over the stated pool model: per repetition the matrices are that repetition's own trajectory; if a task's result is a function of the task alone every chunking gives the "
                      "sequential result; and for the model of the pre-fix code the negation (shared RNG ⇒ schedule dependence) by a decided witness. Tie: real evaluate() with 1..5 (thorough 1..16) "
@@ -99,7 +100,9 @@ TECHNIQUE["C11"] = "Lean 4 theorems (enumeration, value, all chunkings) + differ
 LEVEL_TEXT["C09"] = ("Theorems by induction over every sequence of reset / step / unstep with valid actions from the constructor: known = initial ∪ {∅, N} ∪ revealed and carries the hidden values; "
                      "mask = explorable ∖ known; observation = normalised value at known explorable positions, 0 elsewhere; reward = −gap(compute(knowledge)) (≤ 0 for a non-negative gap); "
                      "info = id; done ↔ budget ∨ nothing left ∨ all widths 0; reset forgets everything but the minimal information of the new game; invalid calls raise and leave what the code "
-                     "leaves. Computer and gap are parameters (instantiated for the model's own computers in reach_inv_real). Tie: every reveal order at n=3, random walks at n=4,5 on the real ICG_Gym.")
+                     "leaves. Computer and gap are parameters; Props/Compose instantiates them with the model's real computers (sa, sac, sam r) and real gap functions (l1, l∞, l2², exploitability; l2 over ℝ) and "
+                     "DISCHARGES the hypotheses from C01/C04/C07/C08: reward defined and ≤ 0 at every reachable state of a game of the class, 0 at full knowledge, non-decreasing along reveals, valid calls "
+                     "never raise, step-then-unstep restores reward / observation / mask / done. Tie: every reveal order at n=3, random walks at n=4,5 on the real ICG_Gym.")
 LEVEL_TEXT["C13"] = ("Theorems at every state satisfying the C09 invariant: greedy / worst-greedy return the lowest-index valid action attaining the max / min immediate reward, largest the lowest-index "
                      "valid action of maximal size, random some valid action, and the environment afterwards equals the environment before (EnvEq, via the undo theorem); expected-greedy never "
                      "repeats, each extension minimises the mean gap among the candidates, its curve is non-increasing for monotone gaps, ≥ the exhaustive optimum and equal to it for 0 and 1 reveals. "
